@@ -1,5 +1,6 @@
 From Coq Require Extraction.
 From Coq Require Import ExtrOcamlBasic.
 From Tickit Require Import RectDefs RBDefs RBSpec.
-Extraction "mC03.ml" rb_new step a_new astep dump_checkb api_of abs_rb wf_rbb ast_eqb aux_eqb
+From Tickit Require PenDefs.
+Extraction "mC03.ml" rb_new pget pen_build pen_empty PenDefs.attr_type step a_new astep dump_checkb api_of abs_rb wf_rbb ast_eqb aux_eqb
   grapheme_at cpw text_valid text_width.
